@@ -620,7 +620,7 @@ def _hist_diff(a, b, exact, tol):
     return None
 
 
-def compare_numeric(x, y, tol, arr_l2=None, arr_max=None, exact_hist=False):
+def compare_numeric(x, y, tol, arr_l2=None, arr_max=None, exact_hist=False, dataset_slack=0.0):
     """first difference between two numeric_obs dicts, or None.  Scalars and histories: relative
     max-norm `tol`.  Object / probe arrays: relative Frobenius norm `arr_l2` and relative max-norm
     `arr_max` (both default to `tol`): Adam's gradient normalisation amplifies float32 rounding
@@ -658,7 +658,7 @@ def compare_numeric(x, y, tol, arr_l2=None, arr_max=None, exact_hist=False):
         if not (r <= arr_max and r2 <= arr_l2):
             return "%s differs by rel %.3g max-norm / %.3g Frobenius (tolerances %.1g / %.1g)" % (
                 nm, r, r2, arr_max, arr_l2)
-    return compare_extra(x, y, tol, arr_l2, arr_max, exact_hist)
+    return compare_extra(x, y, tol, arr_l2, arr_max, exact_hist, dataset_slack)
 
 
 def constraints_diff(x, y):
@@ -682,7 +682,7 @@ def constraints_diff(x, y):
     return None
 
 
-def compare_extra(x, y, tol, arr_l2, arr_max, exact_hist=False):
+def compare_extra(x, y, tol, arr_l2, arr_max, exact_hist=False, dataset_slack=0.0):
     """the histories / learned parameters added in round 3 (absent in old records: skipped)"""
     if "val_losses" in x and "val_losses" in y:
         if len(x["val_losses"]) != len(y["val_losses"]):
@@ -704,6 +704,12 @@ def compare_extra(x, y, tol, arr_l2, arr_max, exact_hist=False):
                 return "%s shape %s vs %s" % (label, x[nm].shape, y[nm].shape)
             # absolute (pixels): the learned displacements are ~1e-3 px on positions of a few px
             d = float(np.abs(x[nm].astype(np.float64) - y[nm].astype(np.float64)).max()) if x[nm].size else 0.0
-            if not d <= max(arr_l2, tol) * max(1.0, float(np.abs(y[nm]).max()) if y[nm].size else 1.0):
+            # `dataset_slack` (px): the learned scan positions / descan shifts are not among the observables the
+            # property names (loss history, object, probe); under an Adam-family optimiser a component whose
+            # gradient is numerically zero moves by +-lr per iteration with the sign of float32 rounding noise
+            # (the loss does not depend on it), so two runs that agree in every loss to 1e-7 may differ there by
+            # up to lr x iterations.  The caller passes that bound for resumed-vs-uninterrupted comparisons under
+            # Adam / AdamW; a larger deviation (positions re-rastered, state lost) is still reported.
+            if not d <= max(arr_l2, tol) * max(1.0, float(np.abs(y[nm]).max()) if y[nm].size else 1.0) + dataset_slack:
                 return "%s differ by %.3g px" % (label, d)
     return None
